@@ -2684,6 +2684,300 @@ Section Cover.
   Qed.
 
 
+  (* ------------------------------------------------------------------ 2b: a directory moved in from outside over an empty directory of the tree *)
+  (* While the reader installs the watches of the arrived tree it still records the replaced directory v under q
+     (wfp[q] = wd_v, pfw[wd_v] = q); the kernel has already dropped that watch.  The first add_watch overwrites wfp[q]; the
+     stale key of pfw is removed by the IN_IGNORED at the end.  [hat wd0 r] is r without that key; states are compared up to
+     lookups ([leq]): the run from r is, up to lookups and that key, the run from [dropped r q wd_v]. *)
+  Definition hat (wd0 : N) (r : rstate) : rstate :=
+    {| wfp := wfp r; pfw := aremove N.eqb wd0 (pfw r); mvf := mvf r; calls := calls r; pend := pend r |}.
+
+  Record leq (x y : rstate) : Prop := {
+    lq_w : forall z, alookup beqb z (wfp x) = alookup beqb z (wfp y);
+    lq_p : forall wd, alookup N.eqb wd (pfw x) = alookup N.eqb wd (pfw y);
+    lq_m : mvf x = mvf y;
+    lq_c : calls x = calls y;
+    lq_d : pend x = pend y
+  }.
+
+  Lemma wrem_look z k (m : list (bytes * N)) : alookup beqb z (aremove beqb k m) = if beqb z k then None else alookup beqb z m.
+  Proof. destruct (beqb z k) eqn:E; [apply beqb_eq in E; subst; apply wrem_eq | apply beqb_neq in E; now apply wrem_neq]. Qed.
+
+  Lemma unlabel_lookup_ex x y wd p z : alookup N.eqb wd (pfw x) = alookup N.eqb wd (pfw y) ->
+    (forall u, u <> p -> alookup beqb u (wfp x) = alookup beqb u (wfp y)) -> z <> p ->
+    alookup beqb z (unlabel C x wd p) = alookup beqb z (unlabel C y wd p).
+  Proof.
+    intros Hp Hw Hz. unfold unlabel. rewrite <- Hp. destruct (c_fix_relabel C); [|now apply Hw].
+    destruct (alookup N.eqb wd (pfw x)) as [known|]; [|now apply Hw].
+    destruct (beqb known p) eqn:E; cbn [negb andb]; [now apply Hw|]. apply beqb_neq in E.
+    rewrite <- (Hw known E). destruct (match alookup beqb known (wfp x) with Some w0 => N.eqb w0 wd | None => false end); [|now apply Hw].
+    rewrite !wrem_look. destruct (beqb z known); [reflexivity | now apply Hw].
+  Qed.
+
+  Definition deadk (wd0 : N) (k : kst) : Prop := (wd0 < k_next_wd k)%N /\ forall kw, In kw (k_watches k) -> kw_wd kw <> wd0.
+
+  Lemma add_watch_deadk wd0 r k t p r' k' wd : deadk wd0 k -> add_watch C r k t p = Some (r', k', wd) -> deadk wd0 k' /\ wd <> wd0.
+  Proof.
+    intros [L Hn] Ha. unfold add_watch in Ha. destruct (mem_nat (calls r) (c_faults C)); [discriminate|].
+    unfold kadd_watch in Ha. destruct (flookup p t) as [e|]; [|discriminate].
+    destruct (watch_of_ino k (f_ino e)) as [w0|] eqn:Ew.
+    - injection Ha as <- <- <-. apply watch_of_ino_some in Ew as [Hk _]. split; [|now apply Hn]. split; [exact L|]. cbn.
+      intros kw Hin. apply in_map_iff in Hin as (x0 & <- & Hx0). destruct (N.eqb (kw_wd x0) (kw_wd w0)); cbn; now apply Hn.
+    - injection Ha as <- <- <-. split; [|lia]. split; [cbn; lia|]. cbn. intros kw Hin.
+      apply in_app_iff in Hin as [Hin|[<-|[]]]; [now apply Hn | cbn; lia].
+  Qed.
+
+  (* one add_watch, the two runs side by side.  [ex]: the path whose wfp entry may still differ (the one being added) *)
+  Lemma add_watch_hat wd0 x y k t p x' k' wd :
+    (forall u, u <> p -> alookup beqb u (wfp x) = alookup beqb u (wfp y)) ->
+    (forall w1, alookup N.eqb w1 (aremove N.eqb wd0 (pfw x)) = alookup N.eqb w1 (pfw y)) ->
+    mvf x = mvf y -> calls x = calls y -> pend x = pend y ->
+    add_watch C x k t p = Some (x', k', wd) -> wd <> wd0 ->
+    exists y', add_watch C y k t p = Some (y', k', wd) /\ leq (hat wd0 x') y' /\
+               alookup N.eqb wd0 (pfw x') = alookup N.eqb wd0 (pfw x).
+  Proof.
+    intros Hw Hp Hm Hc Hd Ha Hwd. unfold add_watch in *. rewrite <- Hc. rewrite Hfaults in *. cbn [mem_nat] in *.
+    destruct (kadd_watch k t p (c_mask C)) as [[k1 w1]|]; [|discriminate]. injection Ha as <- <- <-.
+    eexists. split; [reflexivity|]. split; [|cbn [pfw]; now rewrite pset_neq by congruence].
+    assert (Hpw : alookup N.eqb w1 (pfw x) = alookup N.eqb w1 (pfw y)) by (rewrite <- Hp; now rewrite prem_neq).
+    constructor; cbn [hat wfp pfw mvf calls pend]; try congruence.
+    - intros z. destruct (bytes_eq_dec z p) as [->|Hz]; [now rewrite !wset_eq|]. rewrite !wset_neq by assumption.
+      apply unlabel_lookup_ex; cbn [pfw wfp]; assumption.
+    - intros w2. destruct (N.eq_dec w2 wd0) as [->|H2].
+      + rewrite prem_eq. rewrite pset_neq by congruence. rewrite <- Hp. now rewrite prem_eq.
+      + rewrite prem_neq by assumption. destruct (N.eq_dec w2 w1) as [->|H3]; [now rewrite !pset_eq|].
+        rewrite !pset_neq by assumption. rewrite <- Hp. now rewrite prem_neq.
+  Qed.
+
+  Lemma bump_leq wd0 x y : leq (hat wd0 x) y -> leq (hat wd0 (bump x)) (bump y).
+  Proof. intros [A B D E F]. constructor; cbn in *; congruence. Qed.
+
+  Lemma add_dirs_hat wd0 t ps : forall x y k, deadk wd0 k -> leq (hat wd0 x) y ->
+    snd (add_dirs C x k t ps) = snd (add_dirs C y k t ps) /\
+    leq (hat wd0 (fst (add_dirs C x k t ps))) (fst (add_dirs C y k t ps)) /\
+    alookup N.eqb wd0 (pfw (fst (add_dirs C x k t ps))) = alookup N.eqb wd0 (pfw x) /\
+    deadk wd0 (snd (add_dirs C x k t ps)).
+  Proof.
+    induction ps as [|p ps IH]; intros x y k Hk L; cbn [add_dirs]; [auto|].
+    destruct (add_watch C x k t p) as [[[x1 k1] wd]|] eqn:Ex.
+    - destruct (add_watch_deadk wd0 x k t p x1 k1 wd Hk Ex) as [Hk1 Hwd].
+      destruct L as [A B D E F]. cbn [hat wfp pfw mvf calls pend] in *.
+      destruct (add_watch_hat wd0 x y k t p x1 k1 wd (fun u _ => A u) B D E F Ex Hwd) as (y1 & Ey & L1 & P1).
+      rewrite Ey. destruct (IH x1 y1 k1 Hk1 L1) as (H1 & H2 & H3 & H4). split; [exact H1|]. split; [exact H2|]. split; [now rewrite H3 | exact H4].
+    - assert (Ey : add_watch C y k t p = None).
+      { unfold add_watch in *. rewrite Hfaults in *. cbn [mem_nat] in *. now destruct (kadd_watch k t p (c_mask C)) as [[k1 w1]|]. }
+      rewrite Ey. cbn [fst snd]. split; [reflexivity|]. split; [now apply bump_leq|]. split; [reflexivity | exact Hk].
+  Qed.
+
+  Lemma add_watch_keys r k t p r' k' wd : NoDup (map fst (wfp r)) -> add_watch C r k t p = Some (r', k', wd) -> NoDup (map fst (wfp r')).
+  Proof.
+    intros Hn Ha. unfold add_watch in Ha. destruct (mem_nat _ _); [discriminate|].
+    destruct (kadd_watch k t p (c_mask C)) as [[k1 w1]|]; [|discriminate]. injection Ha as <- _ _. cbn [wfp].
+    apply wkeys_set. unfold unlabel. cbn [wfp pfw]. destruct (c_fix_relabel C); [|exact Hn].
+    destruct (alookup N.eqb w1 (pfw r)) as [known|]; [|exact Hn]. destruct (negb (beqb known p) && _); [now apply wkeys_rem | exact Hn].
+  Qed.
+
+  Lemma add_dirs_keys t ps : forall r k, NoDup (map fst (wfp r)) -> NoDup (map fst (wfp (fst (add_dirs C r k t ps)))).
+  Proof.
+    induction ps as [|p ps IH]; intros r k Hn; cbn [add_dirs]; [exact Hn|].
+    destruct (add_watch C r k t p) as [[[r1 k1] wd]|] eqn:E; [|exact Hn]. apply IH. eapply add_watch_keys; eassumption.
+  Qed.
+
+  Lemma WInv_leq t k x y : WInv t k y -> leq x y -> NoDup (map fst (wfp x)) -> WInv t k x.
+  Proof.
+    intros I [A B D E F] Hn. constructor; try apply I.
+    - intros kw Hk. destruct (wi_exact _ _ _ I kw Hk) as (e & H1 & H2 & H3 & H4 & H5 & H6). exists e. rewrite B, A. auto 7.
+    - intros z wd. rewrite A, B. apply I.
+    - rewrite D. apply I.
+    - intros wd z. rewrite B. apply I.
+    - exact Hn.
+  Qed.
+
+  Lemma Cover_leq t k x y : Cover t k y -> leq x y -> Cover t k x.
+  Proof.
+    intros Cv [A B _ _ _] e He De Se. destruct (Cv e He De Se) as (kw & C1 & C2 & C3). exists kw.
+    split; [exact C1|]. now rewrite B, A.
+  Qed.
+
+  (* the events: the IN_MOVED_TO of the directory under its real path, then records about the replaced directory, all under q *)
+  Theorem step_rename_dir_in_over_ev w k r p q w' ep v : RSync w k r -> npath p -> npath q ->
+    c_recursive C = true -> c_fix_movein C = true ->
+    N.land IN_MOVED_FROM (c_mask C) <> 0%N -> N.land IN_MOVED_TO (c_mask C) <> 0%N ->
+    apply_op w (Rename p q) = Some w' ->
+    flookup p (w_fs w) = Some ep -> f_dir ep = true -> ~ scope p -> under p root = false -> scope q -> q <> root ->
+    flookup q (w_fs w) = Some v -> f_dir v = true ->
+    let k1 := kernel_op k (w_fs w) (Rename p q) in
+    exists r' k' wd rest, read_batch C (w_fs w') (r, drainq k1, []) (k_queue k1) =
+        Done (r', k', {| r_wd := wd; r_mask := N.lor IN_MOVED_TO IN_ISDIR; r_cookie := k_next_cookie k;
+                         r_name := basename q; r_path := q |} :: rest) /\ RSync w' k' r' /\
+      Forall (fun e => (self_mask (r_mask e) \/ r_mask e = IN_IGNORED) /\ r_path e = q) rest.
+  Proof.
+    intros S Np Nq Hrec Hfix Hmf Hmt Ha Elp Dep Sp Hpr Sq Hqr Elq Dv k1. destruct S as [W Hr I Cv Hq Hpd].
+    assert (W' : wf_fs w') by exact (wf_apply_op w (Rename p q) w' W (conj Np Nq) Ha).
+    destruct (rename_inv w p q w' W Np Nq Ha) as (ep' & t1 & Elp' & Hne & Hupq & Edq & -> & Hbelow & Hq1).
+    assert (ep' = ep) by congruence. subst ep'.
+    destruct Hq1 as [[E _]|(v' & Ev & -> & _)]; [congruence|]. assert (v' = v) by congruence. subst v'.
+    destruct (flookup_some _ _ _ Elp) as [Hep Eep]. destruct (flookup_some _ _ _ Elq) as [Hv Evp].
+    assert (Sv : scope (f_path v)) by now rewrite Evp.
+    destruct (Cv v Hv Dv Sv) as (kwv & Cvv). assert (Cvv' := Cvv). destruct Cvv' as (Cwv & Cpv & Cfv). rewrite Evp in Cpv, Cfv.
+    destruct (watch_of_ino_some _ _ _ Cwv) as [Hkv Eiv].
+    assert (Fq : fisdir q (w_fs w) = true) by (unfold fisdir; now rewrite Elq).
+    assert (Fp : fisdir p (w_fs w) = true) by (unfold fisdir; now rewrite Elp).
+    assert (Iv : ino_of (w_fs w) q = f_ino v) by (unfold ino_of; now rewrite Elq).
+    destruct Hr as (er & Her & Eer & Der).
+    destruct (scope_parent q Nq Sq Hqr) as [Sdq _].
+    destruct (fisdir_in _ _ Edq) as (dq & Hdq & Edq' & Ddq). rewrite <- Edq' in Sdq.
+    destruct (Cv dq Hdq Ddq Sdq) as (kwq & Cwq & Cpq & Cfq).
+    assert (Iq : ino_of (w_fs w) (dirname q) = f_ino dq) by (unfold ino_of; rewrite <- Edq'; now rewrite (flookup_in _ dq (wf_paths w W) Hdq)).
+    assert (Sdp : ~ scope (dirname p)).
+    { intros H. apply Sp. destruct (npath_parts p Np) as (Ep & _). rewrite Ep. now apply scope_child. }
+    set (tm := fremove q (w_fs w)) in *. set (t' := frename p q tm) in *.
+    set (c := k_next_cookie k).
+    set (kf := {| k_watches := filter (fun x => negb (N.eqb (kw_wd x) (kw_wd kwv))) (k_watches k); k_next_wd := k_next_wd k;
+                  k_queue := []; k_next_cookie := k_next_cookie k + 1 |}).
+    (* the kernel *)
+    subst k1. cbn [kernel_op w_fs]. rewrite Fq.
+    set (k2 := knotify (knotify _ _ _ _ _ _) _ _ _ _ _).
+    assert (Ek2 : k2 = {| k_watches := k_watches k; k_next_wd := k_next_wd k;
+              k_queue := [mv_to kwq true c (basename q)]; k_next_cookie := k_next_cookie k + 1 |}).
+    { unfold k2. rewrite rename_kernel; [|exact Hq|].
+      - now rewrite (ino_unwatched w k r (dirname p) W I Sdp), Iq, Cwq, Fp.
+      - intros kw Hk. rewrite (wi_mask _ _ _ I kw Hk). now split. }
+    rewrite Iv.
+    destruct (kgone_spec k2 (f_ino v) true kwv) as (pre & -> & Hpre).
+    { rewrite (watch_of_ino_ext k k2) by (rewrite Ek2; reflexivity). exact Cwv. }
+    { rewrite Ek2. cbn [k_queue]. intros a [<-|[]]; (split; [intros [H|H]; vm_compute in H; discriminate | vm_compute; discriminate]). }
+    rewrite Ek2. unfold drainq, kset_queue. cbn [k_watches k_next_wd k_queue k_next_cookie]. fold kf.
+    change ([mv_to kwq true c (basename q)] ++ pre ++ [ign_ev kwv]) with ([mv_to kwq true c (basename q)] ++ (pre ++ [ign_ev kwv])).
+    rewrite read_batch_app.
+    (* the file system *)
+    destruct (npath_parts q Nq) as (Eq & Gdq & Vbq & Jq).
+    assert (SPq : src_path_of (dirname q) (basename q) = q) by (unfold src_path_of; destruct (basename q); [discriminate Vbq | exact Jq]).
+    assert (Hren : forall e, In e (w_fs w) -> scope (f_path e) -> ren p q e = e).
+    { intros e He Se. destruct (scope_not_below p (f_path e) Hrec Sp Hpr Se) as [E1 E2]. unfold ren.
+      apply beqb_neq in E1. now rewrite E1, E2. }
+    assert (Hin' : forall e, In e (w_fs w) -> f_path e <> q -> In (ren p q e) t').
+    { intros e He Hn. unfold t'. rewrite frename_map. apply in_map. apply fremove_in. now split. }
+    assert (Hvq : forall e, In e (w_fs w) -> f_path e = q -> e = v).
+    { intros e He E. apply (path_inj (w_fs w)); [apply W| | |]; congruence. }
+    (* the state without the replaced directory *)
+    set (rD0 := dropped r (f_path v) (kw_wd kwv)).
+    destruct (dropped_sync w tm k r v kwv kf W I Cv Hv Cvv) as [ID0 CvD0]; try reflexivity; try (cbn; lia).
+    { intros e He De. apply fremove_in in He as [He Hn]. split; [exact He|]. intros ->. congruence. }
+    { intros e He De Hn. apply fremove_in. split; [exact He|]. intros E. apply Hn. now apply Hvq. }
+    fold rD0 in ID0, CvD0.
+    assert (I0 : WInv t' kf rD0).
+    { apply (WInv_ext' tm _ kf); try assumption; try reflexivity; try lia.
+      intros e He De (kw & Hk & Ei). destruct (wi_exact _ _ _ ID0 kw Hk) as (e' & He' & _ & Se' & Ie' & _).
+      apply fremove_in in He as [He Hn]. apply fremove_in in He' as [He' Hn'].
+      assert (e' = e) by (apply (ino_inj w); try assumption; congruence). subst e'.
+      rewrite <- (Hren e He Se'). now apply Hin'. }
+    assert (Hq' : In (ren p q ep) t' /\ f_path (ren p q ep) = q /\ f_dir (ren p q ep) = true).
+    { split; [apply Hin'; [exact Hep | congruence]|]. rewrite ren_path, ren_dir, Eep, rk_self. auto. }
+    assert (Fq' : fisdir q t' = true).
+    { apply (in_fisdir q t' (wf_paths _ W')). exists (ren p q ep). apply Hq'. }
+    assert (Hps : Forall (dir_in_scope t') (q :: walk_dirs t' q)).
+    { constructor.
+      - exists (ren p q ep). destruct Hq' as (A & B & D). auto.
+      - apply Forall_forall. intros x Hx. apply (walk_dirs_spec _ q W' Fq') in Hx as (e & He & Ee & De & Ue).
+        exists e. repeat split; try assumption. now apply (scope_under q). }
+    destruct (cgo_ok _ W' _ kf rD0 I0 Hps) as (rD & kD & Hg & HdD & ID & (QD & ND & MD & XD) & Cvps & _).
+    cbn [w_fs] in Hg, HdD, ID, XD, Cvps.
+    (* the reader: the IN_MOVED_TO *)
+    cbn [read_batch]. rewrite read_one_body_eq by exact Hpd.
+    rewrite (read_one_to_movein _ _ _ _ _ (dirname q)); try (vm_compute; reflexivity).
+    2:{ cbn [mv_to kev k_wd]. now rewrite Cpq, Edq'. }
+    2:{ left. cbn [mv_to kev k_cookie]. destruct (alookup N.eqb c (mvf r)) eqn:E; [|reflexivity].
+        apply (wi_mvf _ _ _ I) in E. unfold c in E. lia. }
+    2:{ cbn [mv_to kev k_mask k_name]. rewrite SPq, Hfix, Hrec, Fq'. reflexivity. }
+    cbn [mv_to kev k_name]. rewrite SPq. cbv zeta.
+    (* the two runs of add_dirs side by side *)
+    assert (Hdk : deadk (kw_wd kwv) kf).
+    { split; [cbn; now apply (wi_lt _ _ _ I)|]. intros kw Hk. cbn in Hk. apply filter_In in Hk as [_ Hk].
+      now apply negb_true_iff, N.eqb_neq in Hk. }
+    cbn [add_dirs cgo] in HdD, Hg |- *.
+    destruct (add_watch C rD0 kf t' q) as [[[y1 ky1] wdy]|] eqn:Ey; [|discriminate]. fold (cgo t') in Hg.
+    destruct (add_watch C r kf t' q) as [[[x1 kx1] wd1]|] eqn:Ex.
+    2:{ exfalso. unfold add_watch in Ex, Ey. rewrite Hfaults in Ex, Ey. cbn [mem_nat] in Ex, Ey.
+        destruct (kadd_watch kf t' q (c_mask C)) as [[ka wa]|]; discriminate. }
+    destruct (add_watch_deadk _ _ _ _ _ _ _ _ Hdk Ex) as [Hdk1 Hwd1].
+    destruct (add_watch_hat (kw_wd kwv) r rD0 kf t' q x1 kx1 wd1) as (y1' & Ey' & L1 & P1); try reflexivity; try assumption.
+    { intros u Hu. unfold rD0, dropped. cbn [wfp]. rewrite Evp. now rewrite wrem_neq. }
+    rewrite Ey in Ey'. injection Ey' as <- <- <-.
+    destruct (add_dirs_hat (kw_wd kwv) t' (walk_dirs t' q) x1 y1 ky1 Hdk1 L1) as (HA1 & HA2 & HA3 & HA4).
+    rewrite HdD in HA1, HA2. cbn [fst snd] in HA1, HA2.
+    destruct (add_dirs C x1 ky1 t' (walk_dirs t' q)) as [rA kA] eqn:EA. cbn [fst snd] in HA1, HA2, HA3, HA4. subst kA.
+    assert (HpdA : pend rA = None).
+    { assert (H := add_dirs_pend t' (walk_dirs t' q) x1 ky1). rewrite EA in H. cbn [fst] in H.
+      rewrite H. rewrite (add_watch_pend _ _ _ _ _ _ _ Ex). exact Hpd. }
+    assert (HpA : alookup N.eqb (kw_wd kwv) (pfw rA) = Some q) by (rewrite HA3, P1; exact Cpv).
+    destruct (Cvps (ren p q ep) (proj1 Hq')) as (kwn & Cn1 & Cn2 & Cn3); [rewrite (proj1 (proj2 Hq')); now left|].
+    rewrite (proj1 (proj2 Hq')) in Cn3.
+    destruct (watch_of_ino_some _ _ _ Cn1) as [Hkn _].
+    assert (HwA : alookup beqb q (wfp rA) = Some (kw_wd kwn)) by (rewrite <- Cn3; apply (lq_w _ _ HA2)).
+    assert (Hnn : kw_wd kwn <> kw_wd kwv) by (apply (proj2 HA4); exact Hkn).
+    assert (Hpre_inert : Forall (inert_ev rA) pre).
+    { eapply Forall_impl; [|exact Hpre]. intros a (A1 & A2 & A3). split; [now apply self_mask_inert|]. rewrite A1. eauto. }
+    rewrite read_batch_app.
+    destruct (read_batch_inert' t' rA kD pre HpdA Hpre_inert ([] ++ [raw_to (dirname q) (mv_to kwq true c (basename q))])) as (evs1 & -> & HF1).
+    cbn [read_batch]. unfold ign_ev. rewrite read_one_body_eq by exact HpdA.
+    rewrite (read_one_ignored_other _ _ _ _ _ q (kw_wd kwn) HpA HwA Hnn).
+    change {| wfp := wfp rA; pfw := aremove N.eqb (kw_wd kwv) (pfw rA); mvf := mvf rA; calls := calls rA; pend := pend rA |}
+      with (hat (kw_wd kwv) rA).
+    exists (hat (kw_wd kwv) rA), kD, (kw_wd kwq),
+           (evs1 ++ [{| r_wd := kw_wd kwv; r_mask := IN_IGNORED; r_cookie := 0; r_name := []; r_path := q |}]).
+    split.
+    { cbn [app]. unfold raw_to, mv_to, kev. cbn [k_wd k_mask k_cookie k_name]. do 3 f_equal. f_equal.
+      unfold src_path_of in SPq. destruct (basename q); [discriminate Vbq | exact SPq]. }
+    split.
+    2:{ apply Forall_app. split; [|constructor; [split; [now right | reflexivity] | constructor]].
+        clear -HF1 Hpre HpA. revert HF1. generalize evs1. induction Hpre as [|a pre0 (A1 & A2 & A3) _ IHp]; intros evs0 HF; inversion HF as [|? ev ? evs' (wp & Hwp & ->) HF']; subst; constructor.
+        - unfold raw_ev, src_path_of. cbn [r_mask r_path]. rewrite A2. split; [now left|]. rewrite A1 in Hwp. congruence.
+        - now apply IHp. }
+    assert (Hroot : ren p q er = er).
+    { apply Hren; [exact Her|]. rewrite Eer. unfold scope. rewrite Hrec. now left. }
+    assert (CvD : Cover t' kD rD).
+    { intros e' He' De' Se'. unfold t' in He'. rewrite frename_map in He'. apply in_map_iff in He' as (e & <- & He).
+      assert (Hem := He). apply fremove_in in He as [He Hnq].
+      rewrite ren_dir in De'. rewrite ren_path in Se'.
+      destruct (bytes_eq_dec (f_path e) p) as [E|E].
+      - apply Cvps; [apply Hin'; assumption|]. rewrite ren_path, E, rk_self. now left.
+      - destruct (under p (f_path e)) eqn:Eu.
+        + apply Cvps; [apply Hin'; assumption|]. right. apply (walk_dirs_spec _ q W' Fq').
+          exists (ren p q e). split; [apply Hin'; assumption|]. split; [reflexivity|]. split; [now rewrite ren_dir|].
+          rewrite ren_path. apply under_spec in Eu as [s ->]. rewrite rk_under. apply under_app.
+        + rewrite rk_other in Se' by assumption.
+          assert (Hr' : ren p q e = e) by (unfold ren; apply beqb_neq in E; now rewrite E, Eu). rewrite Hr'.
+          destruct (CvD0 e Hem De' Se') as (kw & C1 & C2 & C3). exists kw. apply XD; [rewrite <- Hr'; apply Hin'; assumption|].
+          split; [|split]; assumption. }
+    assert (KA : NoDup (map fst (wfp rA))).
+    { assert (H := add_dirs_keys t' (walk_dirs t' q) x1 ky1 (add_watch_keys _ _ _ _ _ _ _ (wi_keys _ _ _ I) Ex)). now rewrite EA in H. }
+    constructor; cbn [w_fs].
+    - exact W'.
+    - exists er. split; [rewrite <- Hroot; apply Hin'; [exact Her | congruence] | auto].
+    - exact (WInv_leq _ _ _ _ ID HA2 KA).
+    - exact (Cover_leq _ _ _ _ CvD HA2).
+    - now rewrite QD.
+    - exact HpdA.
+  Qed.
+
+  Theorem step_rename_dir_in_over w k r p q w' ep v : RSync w k r -> npath p -> npath q ->
+    c_recursive C = true -> c_fix_movein C = true ->
+    N.land IN_MOVED_FROM (c_mask C) <> 0%N -> N.land IN_MOVED_TO (c_mask C) <> 0%N ->
+    apply_op w (Rename p q) = Some w' ->
+    flookup p (w_fs w) = Some ep -> f_dir ep = true -> ~ scope p -> under p root = false -> scope q -> q <> root ->
+    flookup q (w_fs w) = Some v -> f_dir v = true ->
+    let k1 := kernel_op k (w_fs w) (Rename p q) in
+    exists r' k' evs, read_batch C (w_fs w') (r, drainq k1, []) (k_queue k1) = Done (r', k', evs) /\ RSync w' k' r' /\
+      Forall rsafe evs.
+  Proof.
+    intros S Np Nq Hrec Hfix Hmf Hmt Ha Elp Dep Sp Hpr Sq Hqr Elq Dv k1.
+    destruct (step_rename_dir_in_over_ev w k r p q w' ep v S Np Nq Hrec Hfix Hmf Hmt Ha Elp Dep Sp Hpr Sq Hqr Elq Dv)
+      as (r' & k' & wd & rest & H1 & H2 & H3).
+    eexists _, _, _. split; [exact H1|]. split; [exact H2|]. constructor; [apply good_rsafe; split; reflexivity|].
+    eapply Forall_impl; [|exact H3]. intros e [_ Ep] _. rewrite Ep. now apply beqb_neq.
+  Qed.
+
   (* ------------------------------------------------------------------ 2b: directory renames that do not concern the watch state:
      under a non-recursive watch (only the root is watched), or entirely outside the tree of a recursive watch;
      the target is absent or an empty directory *)
@@ -2898,7 +3192,11 @@ Section Cover.
       covered_op w (Rename p q)                            (* directory of the tree over an empty directory of the tree *)
   | co_rename_dir_plain p q ep : npath p -> npath q -> flookup p (w_fs w) = Some ep -> f_dir ep = true ->
       p <> root -> q <> root -> under p root = false -> (c_recursive C = false \/ (~ scope p /\ ~ scope q)) ->
-      covered_op w (Rename p q).              (* directory, non-recursive watch or entirely outside the tree *)
+      covered_op w (Rename p q)               (* directory, non-recursive watch or entirely outside the tree *)
+  | co_rename_dir_in_over p q ep v : npath p -> npath q -> c_recursive C = true -> c_fix_movein C = true ->
+      flookup p (w_fs w) = Some ep -> f_dir ep = true -> ~ scope p -> under p root = false -> scope q -> q <> root ->
+      flookup q (w_fs w) = Some v -> f_dir v = true ->
+      covered_op w (Rename p q).              (* directory, moved in from outside over an empty directory of the tree *)
 
   Lemma safe_generic w k r o w' r' k' evs : k_queue k = [] ->
     match o with
@@ -2920,7 +3218,7 @@ Section Cover.
     intros (M1 & M2 & M3) S Ho Ha k1. assert (Hq := rs_queue _ _ _ S). assert (W := rs_wf _ _ _ S).
     destruct Ho as [o Hqo Hn|p Hn|p Hn Hr|p q ep Np Nq El De Ed|p q ep Np Nq Hrec El De Sp Hpr Sq Elq
                     |p q ep Np Nq Hrec Hfix El De Sp Hpr Sq Elq|p q ep v Np Nq Hrec El De Sp Hpr Sq Hqr Elq Dv
-                    |p q ep Np Nq El De Hpr Hqr Hupr Hpl].
+                    |p q ep Np Nq El De Hpr Hqr Hupr Hpl|p q ep v Np Nq Hrec Hfix El De Sp Hpr Sq Hqr Elq Dv].
     - destruct (step_quiet w k r o w' S Hn Hqo Ha) as (evs & H1 & _ & H2). eexists _, _, _. split; [exact H1|]. split; [exact H2|].
       eapply (safe_generic w k r o w' _ _ _ Hq); [|exact H1]. destruct o; try contradiction; exact I.
     - destruct (step_mkdir w k r p w' S Hn Ha M1) as (r' & k' & evs & H1 & H2 & _). eexists _, _, _. split; [exact H1|]. split; [exact H2|].
@@ -2942,6 +3240,7 @@ Section Cover.
       eexists _, _, _. split; [exact H1|]. split; [exact H2|]. eapply (safe_generic w k r (Rename p q) w' _ _ _ Hq); [|exact H1].
       right. apply (ino_unwatched w k r q W (rs_inv _ _ _ S)).
       destruct Hpl as [Hrec|[_ Hs]]; [|exact Hs]. unfold scope. now rewrite Hrec.
+    - eapply step_rename_dir_in_over; eassumption.
   Qed.
 
   Theorem cover_step w k r o w' : mask_ok -> RSync w k r -> covered_op w o -> apply_op w o = Some w' ->
